@@ -94,6 +94,7 @@ type World struct {
 	TSO     *Oracle
 	Clients []*Client
 
+	Gen     int64        // sched.Gen() of the execution this world belongs to
 	Seq     atomic.Int64 // one event sequence for RPC records, TSO records and API-level history
 	TSOLog  []TSORecord
 
@@ -115,6 +116,10 @@ type Client struct {
 // store backend when it needs one): physical = T0 + virtual ms, logical is a
 // global counter, so timestamps are strictly increasing and deterministic.
 type Oracle struct {
+	// Source, when set, issues the (physical, logical) pair for the given virtual physical
+	// time (a backend with its own timestamp counter, i.e. unistore, plugs it in so that
+	// client and store share one clock).
+	Source  func(physicalMS int64) (int64, int64)
 	mu      sync.Mutex
 	logical int64
 	lastP   int64
@@ -137,6 +142,9 @@ func (o *Oracle) Next() (int64, int64) {
 	}
 	o.logical++
 	l := o.logical
+	if o.Source != nil {
+		p, l = o.Source(p)
+	}
 	o.Issued = append(o.Issued, uint64(p)<<logicalBits|uint64(l))
 	return p, l
 }
@@ -157,9 +165,19 @@ func (o *Oracle) Max() uint64 {
 	return o.Issued[len(o.Issued)-1]
 }
 
+// CurrentOracle is the oracle of the world being executed (a store backend with its own
+// timestamp needs, i.e. unistore, draws from it so that client and store share one clock).
+var CurrentOracle *Oracle
+
 // NewWorld creates n clients over the backend.
 func NewWorld(b Backend, n int, opts ...tikv.Option) *World {
-	w := &World{B: b, TSO: &Oracle{}, crashed: map[int]bool{}, down: map[string]bool{}}
+	w := &World{B: b, TSO: &Oracle{}, crashed: map[int]bool{}, down: map[string]bool{}, Gen: sched.Gen()}
+	CurrentOracle = w.TSO
+	if src, ok := b.(interface {
+		TSSource() func(int64) (int64, int64)
+	}); ok {
+		w.TSO.Source = src.TSSource()
+	}
 	for i := 0; i < n; i++ {
 		w.AddClient(opts...)
 	}
@@ -247,6 +265,9 @@ var errClosed = errors.New("verif: execution closed")
 func (s *seamRPC) blockDead() { sched.ParkForever() }
 
 func (s *seamRPC) SendRequest(ctx context.Context, addr string, req *tikvrpc.Request, timeout time.Duration) (*tikvrpc.Response, error) {
+	if sched.Gen() != s.c.W.Gen {
+		return nil, errClosed // a goroutine of an earlier execution
+	}
 	label := ReqLabel(req)
 	downKey := fmt.Sprintf("%d/%s", s.c.ID, req.Type)
 	s.c.W.mu.Lock()
@@ -339,6 +360,9 @@ type seamPD struct {
 func (p *seamPD) WithCallerComponent(caller.Component) pd.Client { return p }
 
 func (p *seamPD) GetTS(ctx context.Context) (int64, int64, error) {
+	if sched.Gen() != p.c.W.Gen {
+		return 0, 0, errClosed
+	}
 	if p.c.W.Crashed(p.c.ID) {
 		(&seamRPC{c: p.c}).blockDead()
 		return 0, 0, errClosed
